@@ -261,6 +261,8 @@ def run(chk, tier):
            ("P", 64, "rndP-ties"), ("P", 1000000, "rndP-wide"), ("V", 0, "rndV")]
     for i, (kind, param, label) in enumerate(rnd):
         first.append(pool.submit(random_history, ctx, drv, kind, seed + 101 * i, steps, param, label))
+        if thorough:                     # a second, independent history of every kind
+            first.append(pool.submit(random_history, ctx, drv, kind, seed + 101 * i + 50021, steps, param, label + "-b"))
 
     # (A)+(B) generators; each returns the futures of its shards
     gens = []
@@ -275,13 +277,13 @@ def run(chk, tier):
     first.append(gpool.submit(model_only, ctx, "Dnf", "DnfModel" + suf))
     first.append(gpool.submit(model_only, ctx, "TableImpl", "TableImplT"))
     first.append(gpool.submit(model_only, ctx, "TableImpl", "TableImplP" + suf))
-    first.append(gpool.submit(model_only, ctx, "DnfImpl", "DnfImplFixed"))
+    first.append(gpool.submit(model_only, ctx, "DnfImpl", "DnfImplFixed" + suf))
     first.append(gpool.submit(model_only, ctx, "DnfImpl", "DnfImplAsWritten", "ImplOk"))
 
     # (C) random formulas: inputs from the seed, judged by TLC
     nf4, nq4, nf10, nq10 = (60000, 20000, 6000, 3000) if thorough else (2500, 1200, 300, 200)
     first += replay_script(ctx, pool, drv, "dnf", "dnfRnd4", c20_gen.random_dnf_cases(seed + 7, 4, nf4, nq4, 3, 5), 12)
-    first += replay_script(ctx, pool, drv, "dnf", "dnfRnd10", c20_gen.random_dnf_cases(seed + 8, 10, nf10, nq10, 3, 6), 25, natoms=10)
+    first += replay_script(ctx, pool, drv, "dnf", "dnfRnd10", c20_gen.random_dnf_cases(seed + 8, 10, nf10, nq10, 3, 6), 90, natoms=10)
 
     futs = list(first)
     for g in gens:
@@ -370,5 +372,34 @@ def replay(d):
 
 
 SELFTEST_NOTES = """
-(filled in below)
+Binding demonstration (2026-10-04; scratch worktree /tmp/wt-c20fix of /repo, VERIF_SRC=<worktree>/aldor/aldor/src,
+`bin/verif check C20 --tier quick`; every run exit 1 with VIOLATION lines that are not known findings; worktree removed):
+ M1  table.c  BUCKET_SEARCH without move-to-front (tblDrop then unlinks the chain head's predecessors)  CAUGHT  TDrop/TGet/TIter/TCopy, e.g. "T tiny D0 S0,2 S2,3 D0" (short histories) and the random histories
+ M2  table.c  tblEnlarge rehashes with the old bucket count                       CAUGHT  only by the random histories (needs > 35 entries): TGet/TSize/TIter
+ M3  table.c  tblCopy forgets the count                                           CAUGHT  TCopy size, "T tiny D0 D0 S0,3 C"
+ M4  btree.c  btreeSplitChild copies t-1 instead of t branches                    CAUGHT  BIns faults (sig11) in the 9-key-prefix histories and the random ones
+ M5  btree.c  btreeSearchGE never returns the remembered ancestor                 CAUGHT  BGe + the searches piggybacked on BIns/BDel
+ M6  btree.c  btreeDelete0 `if (i == x->nKeys) i--` disabled                      CAUGHT  BCheck rc=-9, BDel faults, "skipped-but-present"
+ M7  priq.c   heapParent(i) = i/2                                                 CAUGHT  PExt/PPeek return a non-minimum; PCheck fails with distinct keys
+ M8  priq.c   heapSiftOutward ignores the last right child                        CAUGHT  PExt, "P 1 I1,1 I2,2 I1,3 I2,4 X I2,6 I1,7"
+ M9  bitv.c   bitvEqual without the last-word mask                                CAUGHT  eq observer after every bitv call, VEq
+ M10 bitv.c   bitvCountTo stops one bit early                                     CAUGHT  cto observer (all n) on every short history
+ M11 bitv.c   bitvMinus computes xor                                              CAUGHT  "V 3 2 f0,5 f1,6 -0,0,1 ..."
+ M12 dnf.c    dnfAnd drops the product of the second clauses                      CAUGHT  DAnd/DNot/DMk with cancel_rule=false
+ M13 dnf.c    dnfImplies calls dnfAndImplies with swapped arguments               CAUGHT  DImp says-yes-truth-table-says-no, "Q ~ F ; n4"
+ M14 dnf.c    dnfAndMerge keeps a literal and its negation                        CAUGHT  DAnd/DMk
+ M15 dnf.c    dnfAndImplies ignores the sign (lives where the known cancel-rule defect lives)  CAUGHT  DEq/DImp says-yes..., DOr/DAnd with cancel_rule=false
+ none missed.  Known-finding keys only cover: dnf construct with cancel_rule=true, dnfImplies/dnfEqual saying no where the truth
+ table says yes, priqCheck with equal keys present, priqExtractMin on empty, bitvResize to more words.  A priqCheck failure with
+ equal keys in the queue is attributed to the known finding (rndP-wide uses 10^6 keys so that PCheck is effective there).
+Candidate fixes: with hooks/fix-C20-{priq-check-and-empty,bitv-resize-free,dnf-cancel-negation,dnf-implies-complete}.diff applied in the
+ worktree the quick tier held with no KNOWN-FINDING line at all (every finding is explained by its patch; the patches break nothing the
+ check sees).
+Corrupted events (spec/TraceContainers, TraceDnf on a recorded good trace, each accepted before the edit):
+ TGet v 2->3: BAD TGet result; BDel e 1->2 (entry not under that key): BAD BDel result; PExt (2,2)->(3,1) (not a minimum): BAD PExt
+ result; TDrop line deleted: BAD at the next TGet (size/iteration disagree); DAnd r [[1,-3],[2,-3]] -> [[1,-3],[2]]: BAD DAnd + DMk.
+Model sanity: TableImpl.tla with Drop = Tail(chain) violates Refines after 195 states; SiftIn with the comparison reversed violates
+ HeapOrder after 7 states; DnfImpl.tla as written violates ImplOk ((3&4)|(~4&~3)), with the fix it holds for all 97030 formulas;
+ the code's DNF equalled DnfImpl's prediction for every finished formula of both tiers (drift 0), buggy results included.
+Unchanged tree: quick held with VERIF_SEED=20261004 (74 s, 87 s) and 777 (87 s) at machine load 100-160; thorough held in 990 s.
 """
